@@ -1511,9 +1511,22 @@ class GMod(G):
     def __init__(self, draw, cfg=None):
         G.__init__(self, draw, cfg or Cfg(max_depth=2, p_confuse=0))
 
+    STD_NAMES = ["math", "io", "env", "regexp"]
+
     def module(self, idx, earlier):
-        """-> (name, stmts, exports {name: kind})"""
+        """-> (name, stmts, exports {name: kind}, path below the package)"""
         name = "m%d" % idx
+        if self.chance(25):
+            # a project module that shares its name with a module of the standard library
+            free = [n for n in self.STD_NAMES if n not in self.used_std]
+            if free:
+                name = self.pick(free)
+                self.used_std.append(name)
+        path = [name]
+        if earlier and self.chance(35):
+            # nested below an earlier module: importing it loads (and runs, once) every module on the way
+            path = list(self.pick(earlier)[2]) + [name]
+        self.paths[name] = path
         out = [("print", ("str", "run " + name))]
         exports = {}
         priv = "priv%d" % idx
@@ -1521,7 +1534,7 @@ class GMod(G):
         uses = []
         seen = set()
         # imports of earlier modules, drawn form / multiplicity
-        for (ename, eexp) in earlier:
+        for (ename, eexp, _epath) in earlier:
             if not self.chance(60):
                 continue
             for _ in range(self.i(1, 2)):
@@ -1562,7 +1575,7 @@ class GMod(G):
                 exports.setdefault("!" + nm, kind)  # private marker
         for u in uses[:2]:
             out.append(("print", u))
-        return name, out, exports
+        return name, out, exports, path
 
     def import_of(self, ename, eexp, out, suffix=""):
         """Append an import of module ename; returns expressions (num valued) that use what was imported."""
@@ -1573,7 +1586,7 @@ class GMod(G):
             alias = None
             if self.chance(40):
                 alias = "%s_as%d%s" % (ename, self.i(0, 9), suffix)
-            out.append(("import", ["self", ename], ("whole", alias)))
+            out.append(("import", ["self"] + self.paths[ename], ("whole", alias)))
             obj = ("var", alias or ename)
             for k in public:
                 uses.append(self.use_of(("prop", obj, k), eexp[k], invoke=(obj, k)))
@@ -1586,7 +1599,7 @@ class GMod(G):
                     alias = "%s_r%d%s" % (k, self.i(0, 9), suffix)
                 syms.append((k, alias))
                 uses.append(self.use_of(("var", alias or k + ""), eexp[k]))
-            out.append(("import", ["self", ename], ("syms", syms)))
+            out.append(("import", ["self"] + self.paths[ename], ("syms", syms)))
         return uses
 
     def use_of(self, ref, kind, invoke=None):
@@ -1600,15 +1613,22 @@ class GMod(G):
         k = self.i(1, 4)
         mods = []
         files = {}
+        self.used_std = []
+        self.paths = {}
         for idx in range(1, k + 1):
-            name, stmts, exports = self.module(idx, [(n, e) for (n, _s, e) in mods])
-            mods.append((name, stmts, exports))
-            files["/v/%s.lay" % name] = stmts
+            name, stmts, exports, path = self.module(idx, [(n, e, p_) for (n, _s, e, p_) in mods])
+            mods.append((name, stmts, exports, path))
+            files["/v/%s.lay" % "/".join(path)] = stmts
         main = [("print", ("str", "run main"))]
+        # the library modules of the same names, imported before or after the project ones
+        std_pending = [("import", ["std", n], ("whole", "std_" + n)) for n in self.used_std if self.chance(70)]
+        if std_pending and self.chance(50):
+            main.extend(std_pending)
+            std_pending = []
         uses = []
         seen_names = set()
         for _ in range(self.i(1, 5)):
-            name, _s, exports = self.pick(mods)
+            name, _s, exports, _p = self.pick(mods)
             before = len(main)
             u = self.import_of(name, exports, main, suffix="_m%d" % len(main))
             # duplicate symbol names in one module are a compile error: drop an import that would redeclare
@@ -1621,29 +1641,35 @@ class GMod(G):
             uses.extend(u)
             if self.chance(40) and u:
                 main.append(("print", self.pick(u)))
+        main.extend(std_pending)
         for u in uses:
             main.append(("print", u))
         neg = self.i(0, 9)
         if neg == 0:
-            name, _s, exports = self.pick(mods)
+            name, _s, exports, _p = self.pick(mods)
             private = [k[1:] for k in exports if k.startswith("!")]
             if private:
-                main.append(("import", ["self", name], ("syms", [(self.pick(private), "zz_neg")])))
+                main.append(("import", ["self"] + self.paths[name], ("syms", [(self.pick(private), "zz_neg")])))
                 main.append(("print", ("str", "unreachable")))
         elif neg == 1:
             main.append(("import", ["self", "nosuchmodule"], ("whole", None)))
             main.append(("print", ("str", "unreachable")))
         elif neg == 2:
-            name, _s, exports = self.pick(mods)
-            main.append(("import", ["self", name], ("syms", [("misspelt_zz", None)])))
+            name, _s, exports, _p = self.pick(mods)
+            main.append(("import", ["self"] + self.paths[name], ("syms", [("misspelt_zz", None)])))
             main.append(("print", ("str", "unreachable")))
         elif neg == 3:
-            name, _s, exports = self.pick(mods)
+            name, _s, exports, _p = self.pick(mods)
             private = [k[1:] for k in exports if k.startswith("!")]
             if private:
                 alias = "neg_whole"
-                main.append(("import", ["self", name], ("whole", alias)))
+                main.append(("import", ["self"] + self.paths[name], ("whole", alias)))
                 main.append(("print", ("prop", ("var", alias), self.pick(private))))
+        elif neg == 4:
+            # a module below one that exists, but whose own file does not
+            name, _s, exports, _p = self.pick(mods)
+            main.append(("import", ["self"] + self.paths[name] + ["nochild"], ("whole", None)))
+            main.append(("print", ("str", "unreachable")))
         return {"files": files, "main": main}
 
 
